@@ -144,7 +144,7 @@ PV_RE = re.compile(r'^<<"PV", \{(.*?)\}, "(.*?)", (\d+), "(.*?)">>$')
 DIV_RE = re.compile(r'^<<"DIV", "(.*?)", (\d+), (.*)>>$')
 
 
-def run(ctx, prop):
+def collect(ctx, prop):
     quick = ctx.tier == "quick"
     rng = random.Random(ctx.seed * 7919 + int(prop[1:]))
     # 1. design check + script emission
@@ -204,11 +204,9 @@ def run(ctx, prop):
            "other_property_observations": sorted({t for v in pvs for t in v["tags"] if t != prop}),
            "exhaustive": False}
     level = "model_checking"
-    return conclude(ctx, level, cov,
-                    ["handler behaviour is the scripted Chaos handler (replies exactly once)",
+    return cov, ["handler behaviour is the scripted Chaos handler (replies exactly once)",
                      "connections are scripted in-memory net.Conn objects",
-                     "client packets are obfuscated with Go crypto/md5 for input construction only; what the server sees is recomputed by TLC (Crypt.tla)"],
-                    found)
+                     "client packets are obfuscated with Go crypto/md5 for input construction only; what the server sees is recomputed by TLC (Crypt.tla)"], found
 
 
 def classify(prop, s, v):
@@ -238,3 +236,8 @@ def replay(ctx, prop, obj):
         if line.startswith('<<"PV"') or line.startswith('<<"DIV"'):
             print(line)
     return 1 if any(prop in l for l in r["out"].splitlines() if l.startswith('<<"PV"')) else 0
+
+
+def run(ctx, prop):
+    cov, assumptions, found = collect(ctx, prop)
+    return conclude(ctx, "model_checking", cov, assumptions, found)
